@@ -10,6 +10,7 @@ import marshal
 import os
 import re as _re
 import sys
+from types import ModuleType as _ModuleType
 
 from . import core
 from .core import SymBool, SymInt, SymStr, Unsupported, is_sym
@@ -66,7 +67,19 @@ def sx_call(recv, name, *a, **k):
                 if len(a) > 1:
                     return a[1]
                 raise KeyError(a[0])
-            raise Unsupported("dict.setdefault with new symbolic key")
+            # setdefault with a key equal to no existing key: insert under its (forked) concrete value
+            ck = a[0].concretize() if isinstance(a[0], SymStr) else int(a[0])
+            return recv.setdefault(ck, *a[1:])
+    elif tr is _ModuleType and recv is not _re and not recv.__name__.startswith("vsg") and (a or k):
+        # foreign (possibly C) function: use a model if there is one, otherwise realise symbolic arguments by forking
+        if any(isinstance(x, (SymStr, SymInt, SymBool)) for x in a) or any(isinstance(x, (SymStr, SymInt, SymBool)) for x in k.values()):
+            fn = getattr(recv, name)
+            model = FOREIGN_MODELS.get((recv.__name__, name))
+            if model is not None:
+                return model(*a, **k)
+            a = tuple(_realise(x) for x in a)
+            k = {kk: _realise(v) for kk, v in k.items()}
+            return fn(*a, **k)
     elif recv is _re and a:
         if name in ("match", "fullmatch", "search") and len(a) > 1 and is_sym(a[1]):
             from . import symre
@@ -76,6 +89,23 @@ def sx_call(recv, name, *a, **k):
         if name in ("sub", "split", "findall", "finditer") and any(is_sym(x) for x in a):
             raise Unsupported("re.%s on symbolic string" % name)
     return getattr(recv, name)(*a, **k)
+
+
+def _realise(x):
+    if isinstance(x, SymStr):
+        return x.concretize()
+    if isinstance(x, SymInt):
+        return int(x)
+    if isinstance(x, SymBool):
+        return bool(x)
+    return x
+
+
+FOREIGN_MODELS = {
+    ("stat", "S_IMODE"): lambda m: m % 4096,
+    ("os.path", "basename"): None,
+}
+FOREIGN_MODELS = {k: v for k, v in FOREIGN_MODELS.items() if v is not None}
 
 
 def sx_in(x, y):
